@@ -62,9 +62,10 @@ type c09Plant struct {
 func (p *c09) nest(r *lib.Rand, rootPath string, depth int, leaf map[string]any, forExample bool) (schema map[string]any, paths []string, chain []string) {
 	// top-down construction of step kinds
 	type st struct {
-		kind string
-		name string
-		idx  int
+		kind  string
+		name  string
+		idx   int
+		extra int
 	}
 	steps := make([]st, depth)
 	for i := range steps {
@@ -74,7 +75,7 @@ func (p *c09) nest(r *lib.Rand, rootPath string, depth int, leaf map[string]any,
 		case 2:
 			steps[i] = st{kind: "items"}
 		case 3:
-			steps[i] = st{kind: "tuple", idx: r.Range(0, 1)}
+			steps[i] = st{kind: "tuple", idx: r.Range(0, 1), extra: r.Range(0, 1)}
 		default:
 			if r.Bool() {
 				steps[i] = st{kind: "additionalProperties"}
@@ -114,7 +115,11 @@ func (p *c09) nest(r *lib.Rand, rootPath string, depth int, leaf map[string]any,
 		case "items":
 			schema = map[string]any{"type": "array", "items": schema}
 		case "tuple":
-			t := []any{map[string]any{"type": "string"}, map[string]any{"type": "string"}}
+			// tuples of 1 to 3 members, the planted one at s.idx
+			t := make([]any, s.idx+1+s.extra)
+			for k := range t {
+				t[k] = map[string]any{"type": "string"}
+			}
 			t[s.idx] = schema
 			schema = map[string]any{"type": "array", "items": t}
 		case "additionalProperties":
